@@ -33,3 +33,35 @@ class Replay:
 
     def both(self, args, timeout=600):
         return {"dev": self.run(args, False, timeout), "release": self.run(args, True, timeout)}
+
+
+class Native:
+    """/verif/native built against /repo's working tree with the hook cfg on (engine E3 native stage)."""
+
+    def __init__(self, scratch_dir):
+        self.target = os.path.join(scratch_dir, "native_target")
+        self.built = {}
+
+    def build(self, release):
+        if release in self.built:
+            return self.built[release]
+        cmd = ["cargo", "build", "--offline", "--manifest-path", os.path.join(VERIF, "native", "Cargo.toml"),
+               "--target-dir", self.target]
+        if release:
+            cmd.append("--release")
+        rc, out, secs = run(cmd, env=offline_env({"RUSTFLAGS": "--cfg raptorq_verif"}), timeout=900)
+        if rc != 0:
+            raise RuntimeError("native helper build failed:\n" + out[-3000:])
+        self.built[release] = os.path.join(self.target, "release" if release else "debug", "rqnative")
+        return self.built[release]
+
+    def run(self, args, release=False, timeout=1800):
+        exe = self.build(release)
+        rc, out, secs = run([exe] + [str(a) for a in args], timeout=timeout)
+        i = out.find("RESULT ")
+        if i < 0:
+            return "noresult rc=%s %s" % (rc, out[-300:].replace("\n", " "))
+        return out[i + len("RESULT "):].strip()
+
+    def both(self, args, timeout=1800):
+        return {"dev": self.run(args, False, timeout), "release": self.run(args, True, timeout)}
